@@ -503,6 +503,429 @@ theorem TInv.step_read (hT : TreeNet net c) (h : TInv net c s) {t : Nat} {th : T
         exact this
     rw [setThr_same _ _ _ (by simpa using hts)] at this
     exact this
+  | outClosed _ m' a' hi _ _ => rcases hi with hi | hi <;> cases hi
+  | outKilled _ m' a' hi _ _ _ => rcases hi with hi | hi <;> cases hi
+  | kill _ m' own r _ hi => rcases hi with hi | ⟨hi, _⟩ <;> cases hi
+
+end
+
+section
+variable {net : Net} {c : Cert} {s : NState}
+
+theorem countOut_cons_send {m : Nat} {r : List Instr} : countOut m (.send m :: r) = countOut m r + 1 := by
+  simp [countOut]; omega
+
+theorem countOut_cons_close {m : Nat} {r : List Instr} : countOut m (.close m :: r) = countOut m r + 1 := by
+  simp [countOut]; omega
+
+theorem countOut_pos_of_close {m : Nat} {r : List Instr} (h : Instr.close m ∈ r) : 1 ≤ countOut m r := by
+  have := List.count_pos_iff.mpr h
+  unfold countOut; omega
+
+/-- `send m` / `close m` executed by the sender of `m` -/
+theorem TInv.step_out (hT : TreeNet net c) (h : TInv net c s) {t : Nat} {th : Thread} {ts : TSt} {i : Instr} {m : Nat}
+    {rest : List Instr} {s' : NState} (hth : net.threads[t]? = some th) (hts : s.thr[t]? = some ts) (hp : ts.prog = i :: rest)
+    (hi : i = .send m ∨ i = .close m) (heff : Effect net s t ts i s') : TInv net c s' := by
+  obtain ⟨hin, hsuf, hout, hsd, hmlt, hok, sp, a0, hsp, ha0⟩ := head_out (m := m) hT h hth hts hp
+    (hi.elim (fun x => Or.inr (Or.inl x)) (fun x => Or.inr (Or.inr x)))
+  obtain ⟨hs1, hs2, hs3⟩ := h.snd m a0 hmlt ha0
+  obtain ⟨hs4, hs5⟩ := hs3 ts (by rw [hsd]; exact hts)
+  have hcnt := hs4 hin
+  have hncl : a0.closed = false := by
+    cases hc : a0.closed with
+    | false => rfl
+    | true => have := (hs5 hc).1; rw [hp] at this; cases this
+  rw [hok.body] at hsuf
+  have hnotclose : Instr.close m ∉ th.body.dropLast := by
+    intro hmem; have := hok.2.2.2.2 _ hmem; simp [senderInstrOk] at this
+  -- the generic part: every sub-entry is untouched, the thread advances
+  have generic : ∀ (a' : AMB), a'.subs = a0.subs → a'.killed = a0.killed → a'.nSent = a0.nSent + 1 →
+      (a'.nSent ≤ tot net c m ∧ (a'.closed = true ↔ a'.nSent = tot net c m) ∧
+        (ts.advance.inEpi = false → countOut m ts.advance.prog + a'.nSent = tot net c m) ∧
+        (a'.closed = true → ts.advance.prog = [] ∧ ts.advance.inEpi = false)) →
+      BothObl net c s t th ts ts.advance m a0 a' := by
+    intro a' hsubs hkil hns hsnd
+    apply BothObl.of ha0
+    · exact ThrObl.advance hT h hth hts hp _ _ (killedNew_of_old ha0 (by rw [hkil]; exact id))
+        (by intro m' k' he; rcases hi with hi | hi <;> rw [hi] at he <;> cases he)
+        (by intro m' he; rcases hi with hi | hi <;> rw [hi] at he <;> rcases he with he | he <;> cases he <;> rfl)
+        (by intro m' he; rcases hi with hi | hi <;> rw [hi] at he <;> cases he)
+        (by intro m' he; rcases hi with hi | hi <;> rw [hi] at he <;> cases he)
+        (by intro u he; rcases hi with hi | hi <;> rw [hi] at he <;> cases he)
+    · rw [hkil]; exact id
+    · rw [hsubs]
+    · intro k2 sb' h2
+      rw [hsubs] at h2
+      have := h.sub m a0 k2 sb' ha0 h2
+      rw [hns]; omega
+    · intro k2 sb' x h2 hw
+      rw [hsubs] at h2
+      obtain ⟨h1, h2', tsr, rest', hr1, hr2⟩ := h.wait m a0 k2 sb' x ha0 h2 hw
+      refine ⟨h1, h2', ?_⟩
+      have hne : c.reader m k2 ≠ t := by
+        intro heq; rw [heq, hts] at hr1; cases hr1; rw [hp] at hr2
+        rcases hi with hi | hi <;> rw [hi] at hr2 <;> cases hr2
+      simp only [hne, if_false]; exact ⟨tsr, rest', hr1, hr2⟩
+    · intro k2 sb' h2
+      rw [hsubs] at h2
+      by_cases hr : c.reader m k2 = t
+      · simp only [hr, if_true]
+        intro hin'
+        have := h.rd m a0 k2 sb' ts ha0 h2 (by rw [hr]; exact hts) hin
+        rw [hp, count_cons_ne (by rcases hi with hi | hi <;> rw [hi] <;> simp)] at this
+        simpa [TSt.advance, hp] using this
+      · simp only [hr, if_false]
+        intro tsr hr1 hin'; exact h.rd m a0 k2 sb' tsr ha0 h2 hr1 hin'
+    · intro _
+      obtain ⟨g1, g2, g3, g4⟩ := hsnd
+      refine ⟨g1, g2, ?_⟩
+      simp only [hsd, if_true]; exact ⟨g3, g4⟩
+  rcases hi with rfl | rfl
+  · -- send m
+    cases heff with
+    | advance _ _ hs' _ _ _ _ =>
+      rcases hs' m (Or.inl rfl) with h1 | h1
+      · rw [hsp] at h1; cases h1
+      · rw [ha0] at h1; cases h1
+    | sendOk _ sp' a hsp' hm hcl hkl hcap =>
+      rw [ha0] at hm; cases hm
+      apply h.both hth hts ha0
+      rw [hp, countOut_cons_send] at hcnt
+      have hclose : Instr.close m ∈ rest := suffix_last hsuf (by simp)
+      have := countOut_pos_of_close hclose
+      refine generic ({ a0 with nSent := a0.nSent + 1 } : AMB) rfl rfl rfl ?_
+      refine ⟨by simp only; omega, ?_, ?_, ?_⟩
+      · simp only [hncl]; constructor
+        · intro hx; cases hx
+        · intro hx; omega
+      · intro _; simp only [TSt.advance, hp, List.tail_cons]; omega
+      · simp only [hncl]; intro hx; cases hx
+    | outClosed _ m' a hi' hm hcl =>
+      have : m' = m := by rcases hi' with hi' | hi' <;> cases hi'; rfl
+      subst this
+      rw [ha0] at hm; cases hm; rw [hncl] at hcl; cases hcl
+    | outKilled _ m' a hi' hm hcl hkl =>
+      apply h.thrOnly hth hts
+      apply ThrObl.raise hT h hth hts hp _ _ hin
+      · intro m2 k2 he; cases he
+      · intro _ _ hnone; rw [hout] at hnone; cases hnone
+    | kill _ m' own r _ hi' => rcases hi' with hi' | ⟨hi', _⟩ <;> cases hi'
+  · -- close m
+    cases heff with
+    | advance _ _ hs' _ _ _ _ =>
+      rcases hs' m (Or.inr rfl) with h1 | h1
+      · rw [hsp] at h1; cases h1
+      · rw [ha0] at h1; cases h1
+    | closeOk _ sp' a hsp' hm hcl hkl hcap =>
+      rw [ha0] at hm; cases hm
+      apply h.both hth hts ha0
+      rw [hp, countOut_cons_close] at hcnt
+      have hrest : rest = [] := suffix_last_eq hsuf hnotclose
+      subst hrest
+      refine generic ({ a0 with nSent := a0.nSent + 1, closed := true } : AMB) rfl rfl rfl ?_
+      refine ⟨by simp only; simp [countOut] at hcnt; omega, ?_, ?_, ?_⟩
+      · simp only; simp [countOut] at hcnt; constructor
+        · intro _; omega
+        · intro _; trivial
+      · intro _; simp only [TSt.advance, hp, List.tail_cons]; simp [countOut] at hcnt ⊢; omega
+      · intro _; simp [TSt.advance, hp, hin]
+    | outClosed _ m' a hi' hm hcl =>
+      have : m' = m := by rcases hi' with hi' | hi' <;> cases hi'; rfl
+      subst this
+      rw [ha0] at hm; cases hm; rw [hncl] at hcl; cases hcl
+    | outKilled _ m' a hi' hm hcl hkl =>
+      apply h.thrOnly hth hts
+      apply ThrObl.raise hT h hth hts hp _ _ hin
+      · intro m2 k2 he; cases he
+      · intro _ _ hnone; rw [hout] at hnone; cases hnone
+    | kill _ m' own r _ hi' => rcases hi' with hi' | ⟨hi', _⟩ <;> cases hi'
+
+end
+
+section
+variable {net : Net} {c : Cert} {s : NState}
+
+/-- a kill instruction at the head of a program names an existing mailbox -/
+theorem head_kill_valid (hT : TreeNet net c) (h : TInv net c s) {t : Nat} {th : Thread} {ts : TSt} {i : Instr} {m : Nat}
+    {rest : List Instr} (hth : net.threads[t]? = some th) (hts : s.thr[t]? = some ts) (hp : ts.prog = i :: rest)
+    (hi : i = .killIfExc m ∨ i = .killIfOwn m) : m < net.mbs.length := by
+  have hmem : i ∈ th.body ∨ i ∈ th.epi := by
+    rcases h.headMem hth hts hp with ⟨_, hs⟩ | ⟨_, hs⟩
+    · exact Or.inl (suffix_head_mem hs)
+    · exact Or.inr (suffix_head_mem hs)
+  cases hT.kind hth with
+  | main _ hok =>
+    have : i ∈ th.epi := by
+      rcases hmem with hm | hm
+      · rcases hok.body_mem hm with h1 | h1 | h1
+        · rcases hi with rfl | rfl <;> cases h1
+        · rcases hi with rfl | rfl <;> simp [Instr.isFail] at h1
+        · exact h1
+      · exact hm
+    rcases hok.epi_mem this with ⟨m', hm', h2⟩ | ⟨_, _, h2⟩ | ⟨_, h2⟩
+    · rcases hi with rfl | rfl <;> cases h2; exact hm'
+    · rcases hi with rfl | rfl <;> cases h2
+    · rcases hi with rfl | rfl <;> cases h2
+  | sender mo _ _ hok =>
+    rcases hmem with hm | hm
+    · rcases hok.mem hm with h1 | h1
+      · rcases hi with rfl | rfl <;> cases h1
+      · rcases hi with rfl | rfl <;> simp [senderInstrOk] at h1
+    · rw [hok.2.2.1] at hm; simp at hm
+      rcases hi with rfl | rfl <;> cases hm; exact hok.1
+  | sink _ _ hok _ =>
+    rcases hmem with hm | hm
+    · rcases hok.2.2.2.1 _ hm with h1 | h1 | h1
+      · rcases hi with rfl | rfl <;> cases h1
+      · rcases hi with rfl | rfl <;> simp [Instr.isFail] at h1
+      · rcases hi with rfl | rfl <;> simp [Instr.isDie] at h1
+    · rcases hok.2.2.2.2.2 with he | ⟨he, _⟩
+      · rw [he] at hm; simp at hm
+        rcases hi with rfl | rfl <;> cases hm; exact hok.1
+      · rw [he] at hm; simp at hm
+
+theorem kill_fields (a : AMB) (r : Exc) :
+    (a.kill r).subs = a.subs ∧ (a.kill r).nSent = a.nSent ∧ (a.kill r).closed = a.closed ∧ (a.kill r).killed = true := by
+  unfold AMB.kill; split
+  · rename_i hk; exact ⟨rfl, rfl, rfl, hk⟩
+  · exact ⟨rfl, rfl, rfl, rfl⟩
+
+/-- every step of a tree-shaped net preserves the invariant -/
+theorem TInv.step (hT : TreeNet net c) (h : TInv net c s) {t : Nat} {s' : NState} (hs : step net s t = some s') :
+    TInv net c s' := by
+  obtain ⟨ts, i, rest, hts, hp, heff⟩ := step_cases hs
+  obtain ⟨th, hth⟩ := h.thread hts
+  -- instruction kinds with their own lemma
+  by_cases hread : ∃ m k, i = .read m k
+  · obtain ⟨m, k, rfl⟩ := hread; exact h.step_read hT hth hts hp heff
+  by_cases hout : ∃ m, i = .send m ∨ i = .close m
+  · obtain ⟨m, hi⟩ := hout; exact h.step_out hT hth hts hp hi heff
+  have hnr : ∀ m k, i ≠ .read m k := fun m k he => hread ⟨m, k, he⟩
+  have hns : ∀ m, ¬ (i = .send m ∨ i = .close m) := fun m he => hout ⟨m, he⟩
+  cases heff with
+  | advance _ hr hs' hk1 hk2 hj hn =>
+    apply h.thrOnly hth hts
+    apply ThrObl.advance hT h hth hts hp _ _ (fun _ x => x)
+    · intro m k he; exact absurd he (hnr m k)
+    · intro m he; exact absurd he (hns m)
+    · intro m he; exact Or.inl (hk1 m he)
+    · intro m he; exact Or.inl (hk2 m he)
+    · intro u he; subst he
+      have hu := head_join hT h hth hts hp
+      have hu' : u < s.thr.length := by rw [h.lenT]; omega
+      exact ⟨s.thr[u]'hu', List.getElem?_eq_getElem hu', hj u rfl _ (List.getElem?_eq_getElem hu')⟩
+  | readPop m k _ _ _ _ _ => exact absurd rfl (hnr m k)
+  | readKilled m k _ _ _ _ _ _ => exact absurd rfl (hnr m k)
+  | readTake m k _ _ _ _ _ _ _ => exact absurd rfl (hnr m k)
+  | readWait m k _ _ _ _ _ _ _ _ => exact absurd rfl (hnr m k)
+  | sendOk m _ _ _ _ _ _ _ => exact absurd (Or.inl rfl) (hns m)
+  | closeOk m _ _ _ _ _ _ _ => exact absurd (Or.inr rfl) (hns m)
+  | outClosed _ m _ hi _ _ => exact absurd hi (hns m)
+  | outKilled _ m _ hi _ _ _ => exact absurd hi (hns m)
+  | fail e =>
+    obtain ⟨hin, _⟩ := h.inBody hT hth hts hp ⟨by simp, by simp, by simp, by simp⟩
+    apply h.thrOnly hth hts
+    apply ThrObl.raise hT h hth hts hp _ _ hin
+    · intro m k he; cases he
+    · intro hx; cases hx
+  | die e =>
+    obtain ⟨hin, hsuf⟩ := h.inBody hT hth hts hp ⟨by simp, by simp, by simp, by simp⟩
+    obtain ⟨p0, _, _⟩ := h.pc t th ts hth hts
+    -- `die` only occurs in sinks, as the last instruction
+    have hsink : t ≠ net.threads.length - 1 ∧ dieOnlyLast th.body = true := by
+      have hm := suffix_head_mem hsuf
+      cases hT.kind hth with
+      | main _ hok =>
+        rcases hok.body_mem hm with h1 | h1 | h1
+        · cases h1
+        · simp [Instr.isFail] at h1
+        · rcases hok.epi_mem h1 with ⟨_, _, h2⟩ | ⟨_, _, h2⟩ | ⟨_, h2⟩ <;> cases h2
+      | sender mo _ _ hok =>
+        rcases hok.mem hm with h1 | h1
+        · cases h1
+        · simp [senderInstrOk] at h1
+      | sink hne _ hok _ => exact ⟨hne, hok.2.2.2.2.1⟩
+    have hrest : rest = [] := dieOnlyLast_suffix hsink.2 hsuf
+    subst hrest
+    apply h.thrOnly hth hts
+    refine ⟨⟨p0, fun _ => List.nil_suffix, fun hx => by simp [hin] at hx⟩, ?_, ?_, ?_, ?_, ?_, ?_, ?_⟩
+    · intro m a k sb x _ hm hk hw hrd
+      obtain ⟨_, _, tsr, rest', hr1, hr2⟩ := h.wait m a k sb x hm hk hw
+      rw [hrd, hts] at hr1; cases hr1
+      rw [hp] at hr2; cases hr2
+    · intro m a k sb _ hm hk hrd _
+      have := h.rd m a k sb ts hm hk (by rw [hrd]; exact hts) hin
+      rw [hp] at this; simpa using this
+    · intro m a _ hmlt hm hsd
+      obtain ⟨_, _, h3⟩ := h.snd m a hmlt hm
+      obtain ⟨h4, h5⟩ := h3 ts (by rw [hsd]; exact hts)
+      constructor
+      · intro _
+        have := h4 hin
+        rw [hp] at this; simpa [countOut] using this
+      · intro hc; have := (h5 hc).1; rw [hp] at this; cases this
+    · intro own r hx; simp [hin] at hx
+    · intro r h1 h2 hexc
+      cases hx : ts.exc with
+      | none => simp [hx] at hexc
+      | some x => simp [hx] at hexc; exact h.sinkK t ts r h1 h2 hts (by rw [hx, hexc])
+    · intro hmain; exact absurd hmain hsink.1
+    · intro hnil; rw [hp] at hnil
+  | kill _ m own r hexc hi =>
+    have hi' : i = .killIfExc m ∨ i = .killIfOwn m := hi.imp id (fun x => x.1)
+    have hmlt := head_kill_valid hT h hth hts hp hi'
+    obtain ⟨a, ha⟩ := h.mailbox hmlt
+    obtain ⟨kf1, kf2, kf3, kf4⟩ := kill_fields a r
+    apply h.both hth hts ha
+    have hkn : killedNew s m (a.kill r) m := by unfold killedNew; simp only [if_true]; exact kf4
+    apply BothObl.of ha
+    · apply ThrObl.advance hT h hth hts hp _ _ (killedNew_of_old ha (fun _ => kf4))
+      · intro m' k' he; exact absurd he (hnr m' k')
+      · intro m' he; exact absurd he (hns m')
+      · intro m' he
+        rcases hi with hi | ⟨hi, _⟩
+        · rw [hi] at he; cases he; exact Or.inr hkn
+        · rw [hi] at he; cases he
+      · intro m' he
+        rcases hi with hi | ⟨hi, _⟩
+        · rw [hi] at he; cases he
+        · rw [hi] at he; cases he; exact Or.inr hkn
+      · intro u he; rcases hi with hi | ⟨hi, _⟩ <;> rw [hi] at he <;> cases he
+    · intro _; exact kf4
+    · rw [kf1]
+    · intro k2 sb' h2; rw [kf1] at h2; rw [kf2]; exact h.sub m a k2 sb' ha h2
+    · intro k2 sb' x h2 hw
+      rw [kf1] at h2
+      obtain ⟨h1, h2', tsr, rest', hr1, hr2⟩ := h.wait m a k2 sb' x ha h2 hw
+      refine ⟨h1, h2', ?_⟩
+      have hne : c.reader m k2 ≠ t := by
+        intro heq; rw [heq, hts] at hr1; cases hr1; rw [hp] at hr2; cases hr2
+        exact absurd rfl (hnr m k2)
+      simp only [hne, if_false]; exact ⟨tsr, rest', hr1, hr2⟩
+    · intro k2 sb' h2
+      rw [kf1] at h2
+      by_cases hr : c.reader m k2 = t
+      · simp only [hr, if_true]
+        intro hin'
+        have hin : ts.inEpi = false := by simpa [TSt.advance] using hin'
+        have := h.rd m a k2 sb' ts ha h2 (by rw [hr]; exact hts) hin
+        rw [hp, count_cons_ne (hnr m k2)] at this
+        simpa [TSt.advance, hp] using this
+      · simp only [hr, if_false]
+        intro tsr hr1 hin'; exact h.rd m a k2 sb' tsr ha h2 hr1 hin'
+    · intro _
+      obtain ⟨g1, g2, g3⟩ := h.snd m a hmlt ha
+      rw [kf2, kf3]
+      refine ⟨g1, g2, ?_⟩
+      by_cases hsd : c.sender m = t
+      · simp only [hsd, if_true]
+        obtain ⟨g4, g5⟩ := g3 ts (by rw [hsd]; exact hts)
+        constructor
+        · intro hin'
+          have := g4 (by simpa [TSt.advance] using hin')
+          rw [hp, countOut_cons_other (fun he => hns m (Or.inl he)) (fun he => hns m (Or.inr he))] at this
+          simpa [TSt.advance, hp] using this
+        · intro hc; have := (g5 hc).1; rw [hp] at this; cases this
+      · simp only [hsd, if_false]; exact g3
+  | finish sv out _ =>
+    have h' := h.withOutcome (some out)
+    exact h'.thrOnly hth hts (ThrObl.advance hT h' hth hts hp _ _ (fun _ x => x)
+      (by intro m k he; cases he) (by intro m he; rcases he with he | he <;> cases he)
+      (by intro m he; cases he) (by intro m he; cases he) (by intro u he; cases he))
+  | dropEpi => exact (head_not_dropEpi hT h hth hts hp).elim
+
+end
+
+section
+variable {net : Net} {c : Cert}
+
+theorem init_thr (net : Net) (t : Nat) : (init net).thr[t]? = (net.threads[t]?).map fun th => ({ prog := th.body, epi := th.epi } : TSt) := by
+  simp [init, List.getElem?_map]
+
+theorem init_mbs (net : Net) (m : Nat) :
+    (init net).mbs[m]? = (net.mbs[m]?).map fun sp => ({ subs := sp.drive.map fun _ => {} } : AMB) := by
+  simp [init, List.getElem?_map]
+
+theorem TInv.init (hT : TreeNet net c) : TInv net c (init net) := by
+  refine ⟨by simp [Net.init], by simp [Net.init], ?_, ?_, ?_, ?_, ?_, ?_, ?_, ?_, ?_⟩
+  · intro m sp a hsp ha
+    rw [init_mbs, hsp] at ha; simp at ha; subst ha; simp
+  · intro t th ts hth hts
+    rw [init_thr, hth] at hts; simp at hts; subst hts
+    exact ⟨rfl, fun _ => List.suffix_refl _, fun hx => by simp at hx⟩
+  · intro m a k sb ha hk
+    cases hsp : net.mbs[m]? with
+    | none => rw [init_mbs, hsp] at ha; simp at ha
+    | some sp =>
+      rw [init_mbs, hsp] at ha; simp at ha; subst ha
+      simp only [List.getElem?_map] at hk
+      cases hd : sp.drive[k]? with
+      | none => simp [hd] at hk
+      | some d => simp [hd] at hk; subst hk; simp
+  · intro m a k sb x ha hk hw
+    cases hsp : net.mbs[m]? with
+    | none => rw [init_mbs, hsp] at ha; simp at ha
+    | some sp =>
+      rw [init_mbs, hsp] at ha; simp at ha; subst ha
+      simp only [List.getElem?_map] at hk
+      cases hd : sp.drive[k]? with
+      | none => simp [hd] at hk
+      | some d => simp [hd] at hk; subst hk; simp at hw
+  · intro m a k sb ts ha hk hts hin
+    cases hsp : net.mbs[m]? with
+    | none => rw [init_mbs, hsp] at ha; simp at ha
+    | some sp =>
+      rw [init_mbs, hsp] at ha; simp at ha; subst ha
+      simp only [List.getElem?_map] at hk
+      cases hd : sp.drive[k]? with
+      | none => simp [hd] at hk
+      | some d =>
+      simp [hd] at hk; subst hk
+      have hklt : k < sp.drive.length := (List.getElem?_eq_some_iff.mp hd).1
+      have hmlt : m < net.mbs.length := (List.getElem?_eq_some_iff.mp hsp).1
+      obtain ⟨sp', hsp', _, _, _, _, _, hr⟩ := hT.mailbox hmlt
+      rw [hsp] at hsp'; cases hsp'
+      obtain ⟨_, hcnt, _, _⟩ := hr k hklt
+      cases hth : net.threads[c.reader m k]? with
+      | none => simp [hth] at hcnt
+      | some th =>
+        simp only [hth] at hcnt
+        rw [init_thr, hth] at hts; simp at hts; subst hts
+        simpa using hcnt
+  · intro m a hmlt ha
+    obtain ⟨sp, hsp, _⟩ := hT.mailbox hmlt
+    rw [init_mbs, hsp] at ha; simp at ha; subst ha
+    have hpos := tot_pos hT hmlt
+    refine ⟨by simp, by simp; omega, ?_⟩
+    intro ts hts
+    obtain ⟨th, hth, _, _⟩ := sender_thread hT hmlt
+    rw [init_thr, hth] at hts; simp at hts; subst hts
+    refine ⟨fun _ => ?_, fun hx => by simp at hx⟩
+    simp [tot, hth]
+  · intro t th ts own r hth hts hin
+    rw [init_thr, hth] at hts; simp at hts; subst hts; simp at hin
+  · intro t ts r _ _ hts hexc
+    cases hth : net.threads[t]? with
+    | none => rw [init_thr, hth] at hts; simp at hts
+    | some th => rw [init_thr, hth] at hts; simp at hts; subst hts; simp at hexc
+  · intro u tm hu htm
+    have hlt : net.threads.length - 1 < net.threads.length := by have := hT.1; omega
+    have hth : net.threads[net.threads.length - 1]? = some (net.threads[net.threads.length - 1]'hlt) :=
+      List.getElem?_eq_getElem hlt
+    rw [init_thr, hth] at htm; simp at htm; subst htm
+    right
+    cases hT.kind hth with
+    | main _ hok =>
+      simp only
+      rw [hok.2.2.2.2.1]
+      exact List.mem_append_right _ (main_join_mem hT hth hu)
+    | sender m hne _ _ => exact absurd rfl hne
+    | sink hne _ _ _ => exact absurd rfl hne
+
+theorem TInv.reachable (hT : TreeNet net c) {s : NState} (h : Reachable net s) : TInv net c s := by
+  induction h with
+  | init => exact TInv.init hT
+  | step _ hs ih => exact ih.step hT hs
 
 end
 
